@@ -108,6 +108,9 @@ def opsKernel (op : String) : Option (Rd String) :=
   | "ts.bin" => some do
       let a : TranslateScale K ← tscale; let b : TranslateScale K ← tscale; let p : Point K ← pt
       return s!"{eTs (a * b)} {ePt (a * p)} {eAffine a.to_affine} {eTs a.inverse} {ePt (a.to_affine * p)} {eTs (TranslateScale.from_scale_about a.scale p)} {eTs (a.add_Vec2 b.translation)} {eTs (a.sub_Vec2 b.translation)}"
+  | "ts.scalar" => some do
+      let k : K ← num; let a : TranslateScale K ← tscale
+      return s!"{eTs (TranslateScale.scalar_mul k a)} {eAffine (TranslateScale.scalar_mul k a).to_affine} {eAffine (Affine.scalar_mul k a.to_affine)}"
   | "ts.shapes" => some do
       let a : TranslateScale K ← tscale; let l : Line K ← line; let r : Rect K ← rect; let q : QuadBez K ← quad; let c : CubicBez K ← cubic
       return s!"{eLine (a.mul_Line l)} {eRect (a.mul_Rect r)} {eQuad (a.mul_QuadBez q)} {eCubic (a.mul_CubicBez c)}"
